@@ -22,15 +22,16 @@ EV = {0: 'Enq', 1: 'Dropped', 2: 'Dispatch', 3: 'Requeue', 4: 'Handler', 5: 'Han
 UT = {22: 'SETUP_BEGIN', 1: 'SETUP', 2: 'REFRESH', 3: 'SHOW', 4: 'SEPARATOR', 5: 'PROMPT', 7: 'INPUT', 8: 'CLOSED', 10: 'MODAL_RETURN',
       11: 'REFUSED', 12: 'READY', 13: 'GOT', 14: 'MARK', 15: 'STACK', 16: 'ASK', 17: 'OP', 18: 'REQ', 19: 'ACTION', 20: 'WAITED'}
 
-MON = {"C04": 4, "C05": 5, "C06": 6, "C07": 7, "C08": 8, "C18": 18, "C17": 17, "C09": 9}
+MON = {"C04": 4, "C05": 5, "C06": 6, "C07": 7, "C08": 8, "C18": 18, "C17": 17, "C09": 9, "C02": 2}
 # which user-event tags / loop events each property's correspondence compares
 PROJ_U = {
     "C04": {1, 2, 3, 4, 15, 17, 22}, "C05": {1, 2, 3, 7, 10, 12, 15, 17, 22}, "C06": {5, 7, 12, 18}, "C07": {7, 19, 17, 18, 10},
-    "C08": {1, 2, 3, 8, 15, 17, 22}, "C18": {5, 11, 12, 13, 16, 20}, "C17": {3, 4}, "C09": {8, 15, 17, 10},
+    "C08": {1, 2, 3, 8, 15, 17, 22}, "C18": {5, 11, 12, 13, 16, 20}, "C17": {3, 4}, "C09": {8, 15, 17, 10}, "C02": set(),
 }
 PROJ_L = {
     "C04": {24}, "C05": {7, 8, 9, 24}, "C06": {4, 5, 17, 24}, "C07": {0, 1, 4, 5, 20, 24}, "C08": {24}, "C18": {4, 5, 17, 24}, "C17": {24},
     "C09": {5, 7, 8, 9, 12, 13, 14, 15, 16, 24},
+    "C02": {2, 4, 5, 6, 14, 15, 16, 24},        # dispatch frames, handler starts and ends (with their outcome), the kill, run() returning
 }
 
 
@@ -62,9 +63,9 @@ def mon_case(prop_code, case, trace):
 def monitors(code, pairs):
     out = []
     CH = 1500
-    if code == 9:     # C09 on application sessions: the loop-level acceptor chk_C09 (Monitors.v) on the session's trace
+    if code in (9, 2):     # C09 / C02 on application sessions: the loop-level acceptor (Monitors.v) on the session's trace
         for a in range(0, len(pairs), CH):
-            out += lib.model_run("mon", [[9, t] for c, t in pairs[a:a + CH]])
+            out += lib.model_run("mon", [[code, t] for c, t in pairs[a:a + CH]])
         return out
     for a in range(0, len(pairs), CH):
         out += lib.model_run("smon", [mon_case(code, c, t) for c, t in pairs[a:a + CH]])
@@ -105,6 +106,8 @@ def nontrivial(prop, res):
         return any((e[1] == 11) or (e[1] == 5 and e[2][1] == 1) or (e[1] == 12 and e[2][1] == 0) for e in us)
     if prop == "C17":
         return tags.count(3) >= 2
+    if prop == "C02":      # a callback failed (handler ended with an ordinary exception) and the application went on or was killed
+        return any(e[0] == 5 and e[3] == [2] for e in res[1])
     if prop == "C09":      # the application ended (or was told to) while a modal level was open or screens remained
         return any(e[0] == 12 or (e[0] == 5 and e[3] == [1]) for e in res[1]) and any(e[0] == 7 for e in res[1])
     return False
